@@ -153,6 +153,14 @@ class Inliner:
             self.fn(key)
         for key in list(self.functions):
             f = self.functions[key]
+            if f.get("body") is not None and str(f.get("file")).endswith(".cpp"):
+                for _round in range(4):
+                    before = self.count
+                    self._predicates(f)
+                    if self.count == before:
+                        break
+        for key in list(self.functions):
+            f = self.functions[key]
             if f.get("externC") and f.get("body") is not None:
                 for _round in range(4):
                     before = self.count
@@ -174,6 +182,39 @@ class Inliner:
         if any(x.get("mg") == n["mg"] for x in walk(g["body"]) if x.get("k") == "CallExpr"):
             return None     # recursive
         return g
+
+    def _predicates(self, f):
+        """calls of a bool-valued single-return helper defined in the same .cpp file (free function, or static member of a
+        class defined in that file) are replaced by the returned expression"""
+        for n in [x for x in walk(f["body"]) if x.get("k") in ("CallExpr", "CXXMemberCallExpr")]:
+            g = self.functions.get(n.get("mg") or "")
+            if g is None or g is f or g.get("body") is None or g.get("externC"):
+                continue
+            if g.get("file") != f.get("file") or not str(g.get("file")).endswith(".cpp"):
+                continue
+            if str(g.get("ret") or "").strip() != "bool":
+                continue
+            m = g.get("method")
+            if m and not m.get("static"):
+                continue
+            if n.get("k") == "CXXMemberCallExpr":
+                continue
+            body = g["body"]
+            stmts = body.get("c", []) if body.get("k") == "CompoundStmt" else [body]
+            if not (len(stmts) == 1 and stmts[0].get("k") == "ReturnStmt" and stmts[0].get("c")):
+                continue
+            params, args = g["params"], n["c"][1:]
+            if len(args) != len(params) or any(a.get("k") == "CXXDefaultArgExpr" for a in args):
+                continue
+            if any(x.get("mg") == n.get("mg") for x in walk(body) if x.get("k") == "CallExpr"):
+                continue
+            env = {p["id"]: a for p, a in zip(params, args)}
+            e = {"k": "ParenExpr", "l": n.get("l"), "t": n.get("t"), "c": [_subst(stmts[0]["c"][0], env)], "inl": g["name"]}
+            _replace(n, e)
+            self.count += 1
+            self.sites.append((f["name"], n.get("l"), "pred " + g["name"]))
+            g.setdefault("inlined_into", []).append(f["name"])
+            return
 
     def _helpers(self, f):
         """`return helper(args);`, `helper(args);` and single-return helpers called from an extern "C" definition are
